@@ -37,10 +37,12 @@ CONSTANTS Part,         \* "rx" or "tx"
           Limit,        \* tx: path limit in model units (MAX_APP_DATA_RECORD_SIZE)
           Sizes,        \* tx: payload sizes in model units
           Earlies,      \* tx: subset of BOOLEAN - may callers start before the handshake has finished?
-          Closes        \* tx: subset of BOOLEAN - is close() called at the end?
+          Closes        \* tx: subset of {"none", "end", "mid"} - close() never / after every send() has returned /
+                        \*     at any moment: send() calls may race with it and follow it (the state stays
+                        \*     Connected after a local close(), so send() keeps working)
 
 AllDeviations == {"Epoch0AppDataDelivered", "Epoch0AlertHonoured", "Epoch0HandshakeAdvances",
-                  "PublishBeforeCounters", "AlertUsesHandshakeSeq", "LoadStoreSeq"}
+                  "PublishBeforeCounters", "AlertUsesHandshakeSeq", "AlertKeepsSeq", "LoadStoreSeq"}
 ASSUME Deviations \subseteq AllDeviations
 ASSUME Part \in {"rx", "tx"}
 
@@ -284,8 +286,7 @@ HsStoreSeq ==
 Begin(p) ==
   /\ spc[p].pc = "idle"
   /\ connected                       \* otherwise send() returns Err("DTLS not connected") and nothing happens
-  /\ (early \/ hs \in {"done", "closed"})
-  /\ hs # "closed"
+  /\ (early \/ hs \in {"done", "closed"})       \* after a local close() the state is still Connected
   /\ spc' = [spc EXCEPT ![p] = IF Chunks(plan[p]) = 0 THEN [Idle EXCEPT !.pc = "finished"]
                                 ELSE [pc |-> "load", e |-> 0, s |-> 0, left |-> Chunks(plan[p]), i |-> 1]]
   /\ UNCHANGED <<plan, early, withClose, hs, ctxSeq, wEpoch, wSeq, connected, wire>>
@@ -316,11 +317,15 @@ EmitChunk(p) ==
   /\ UNCHANGED <<plan, early, withClose, hs, ctxSeq, wEpoch, wSeq, connected>>
 
 \* ---- close(): close_notify alert from the handshake task
+\* the run loop takes the close signal at any moment once connected ("mid"): send() calls that are in
+\* flight race with the alert's allocation, and calls that begin afterwards follow it
 Close ==
-  /\ withClose /\ hs = "done"
-  /\ \A p \in Senders : spc[p].pc \in {"idle", "finished"}      \* (close() racing with send() is C17's subject)
+  /\ withClose # "none" /\ hs = "done"
+  /\ withClose = "end" => \A p \in Senders : spc[p].pc = "finished"
   /\ IF Dev("AlertUsesHandshakeSeq")
      THEN Emit("Alert", 1, ctxSeq, 1, 0, 0) /\ UNCHANGED wSeq
+     ELSE IF Dev("AlertKeepsSeq")                  \* reads the counter without advancing it
+     THEN Emit("Alert", wEpoch, wSeq, 1, 0, 0) /\ UNCHANGED wSeq
      ELSE Emit("Alert", wEpoch, wSeq, 1, 0, 0) /\ wSeq' = wSeq + 1
   /\ hs' = "closed"
   /\ UNCHANGED <<plan, early, withClose, ctxSeq, wEpoch, connected, spc>>
@@ -338,11 +343,11 @@ Carried == \A p \in Senders : spc[p].pc = "finished" =>
              LET mine == {r \in wire : r.by = p} IN
              /\ Cardinality(mine) = Chunks(plan[p])
              /\ \A k \in 1..Chunks(plan[p]) : \E r \in mine : r.i = k /\ r.len = ChunkLen(plan[p], k)
-TxDone == hs \in {"done", "closed"} /\ (withClose => hs = "closed") /\ \A p \in Senders : spc[p].pc = "finished"
+TxDone == hs \in {"done", "closed"} /\ (withClose # "none" => hs = "closed") /\ \A p \in Senders : spc[p].pc = "finished"
 
 ---------------------------------------------------------------------------
 Init == IF Part = "rx"
-        THEN RxInit /\ plan = [p \in Senders |-> 0] /\ early = FALSE /\ withClose = FALSE /\ hs = "fin" /\ ctxSeq = 0
+        THEN RxInit /\ plan = [p \in Senders |-> 0] /\ early = FALSE /\ withClose = "none" /\ hs = "fin" /\ ctxSeq = 0
              /\ wEpoch = 0 /\ wSeq = 0 /\ connected = FALSE /\ spc = [p \in Senders |-> Idle] /\ wire = {}
         ELSE TxInit /\ role = "client" /\ phase = "NoKeys" /\ delivered = 0 /\ wasConn = FALSE /\ hist = <<>>
              /\ last = [kind |-> "init", rec |-> Rec("", "", "", -1, ""), pre |-> "NoKeys"]
